@@ -471,8 +471,31 @@ def section_secondq():
         except Exception:
             import traceback
             fail("secondq", "model raised", model=name, error=traceback.format_exc()[-900:])
-    # value types of the perturbation next to an operator-valued H_0: numpy arrays (float, int), sparse arrays and sympy matrices of c-numbers are the same series
+    # complex couplings WITHOUT a literal imaginary unit (a plain Symbol, conjugate(g)): substituting a complex value into the symbolic result must give the result for
+    # that value (the latter path, with a literal I, is compared with matrices above: "imaginary amplitude")
     from pymablock.series import zero
+    gs = sympy.Symbol("g")
+    val = R(1, 2) + R(3, 4) * sympy.I
+    for cname, H0c, H1c in (("anharmonic boson", Na + R(1, 5) * Na ** 2, gs * a + sympy.conjugate(gs) * Dagger(a) + R(1, 3) * (gs * a ** 2 + sympy.conjugate(gs) * Dagger(a) ** 2)),
+                            ("spin-boson", Na + R(3, 7) * Ns, gs * a * Dagger(s) + sympy.conjugate(gs) * Dagger(a) * s + R(1, 2) * (a + Dagger(a)))):
+        cases += 1
+        try:
+            outs_s = block_diagonalize([sympy.Matrix([[H0c]]), sympy.Matrix([[H1c]])])
+            outs_v = block_diagonalize([sympy.Matrix([[H0c]]), sympy.Matrix([[H1c.subs(gs, val)]])])
+            for nm, Ss, Sv in (("H_tilde", outs_s[0], outs_v[0]), ("U", outs_s[1], outs_v[1]), ("U_adjoint", outs_s[2], outs_v[2])):
+                for k_ in range(1, 3):
+                    xs, xv = Ss[0, 0, k_], Sv[0, 0, k_]
+                    if xs is zero or xv is zero:
+                        if xs is not xv:
+                            fail("secondq", "complex symbolic coupling: zero pattern differs from the result for the substituted value", model=cname, output=nm, order=k_)
+                        continue
+                    d_ = NOF.from_expr(sympy.Matrix(xs)[0, 0].subs(gs, val)) - NOF.from_expr(sympy.Matrix(xv)[0, 0])
+                    if not all(sympy.simplify(v) == 0 for v in d_.terms.values()):
+                        fail("secondq", "complex symbolic coupling (no literal I): substituting the value into the result differs from the result for that value", model=cname, output=nm, order=k_,
+                             difference=str(d_)[:200])
+        except Exception as ex:  # noqa: BLE001
+            fail("secondq", "complex symbolic coupling raised", model=cname, error=repr(ex)[:300])
+    # value types of the perturbation next to an operator-valued H_0: numpy arrays (float, int), sparse arrays and sympy matrices of c-numbers are the same series
     H0v = sympy.Matrix([[Na, 0], [0, Na + R(5, 3)]])
     H2v = sympy.Matrix([[0, a], [Dagger(a), 0]])
     refv = None
